@@ -1,5 +1,5 @@
 (* P_C19.v -- C19: every invocation terminates with output or a diagnostic. *)
-From Moq Require Import Strs Strs_Proofs GoTypes TypeString VarName Registry Scope Gen.
+From Moq Require Import Strs Strs_Proofs GoTypes TypeString VarName Registry Scope Gen Registry_Proofs.
 From Coq Require Import Lia DecimalString DecimalNat FinFun.
 Local Open Scope string_scope.
 
@@ -94,34 +94,37 @@ Proof.
   destruct (C19_numbering_total sc s) as (n & sc' & E). rewrite E. split; [discriminate|intros; discriminate].
 Qed.
 
-(* ---- alias resolution can diverge (finding D12): a proof of non-termination ---- *)
-
-Definition sync_witness : rstate :=
-  mkRstate (mkImp "sync" "sync" "") [mkImp "example.com/x/sync" "sync" ""].
-
-Lemma uniq_std lvl : unique_name "sync" lvl = "sync".
-Proof. unfold unique_name, unique_name_with. cbn [split_on split_aux String.prefix]. 
-  destruct lvl; reflexivity. Qed.
+(* ---- alias resolution: the repaired case (D12a) and the divergence that remains (D12) ---- *)
 
 (* the standard package sync (always imported when a mock has a method) against a user
-   package that is also called sync: resolveImportConflict calls itself for ever *)
+   package that is also called sync: before the repair resolveImportConflict called itself
+   for ever (the name "sync" never changes and was held by the other package of the call) *)
+Example C19_alias_sync_fixed :
+  add_import (mkRcfg "example.com/x/src" []) [mkImp "example.com/x/sync" "sync" ""] (mkPkg "sync" "sync")
+  = AddOk [mkImp "example.com/x/sync" "sync" "xsync"; mkImp "sync" "sync" "sync"] "sync".
+Proof. vm_compute. reflexivity. Qed.
+
+(* what remains: two import paths that the replacer maps to the same components
+   (go-yaml / yaml, my_pkg / mypkg ...) have the same unique name at EVERY level, and the
+   first test of resolveImportConflict recurses for ever: a proof of non-termination *)
+Definition yaml_witness : rstate :=
+  mkRstate (mkImp "example.com/dep/yaml" "yaml" "") [mkImp "example.com/dep/go-yaml" "yaml" ""].
+
+Lemma uniq_yaml lvl :
+  unique_name "example.com/dep/yaml" lvl = unique_name "example.com/dep/go-yaml" lvl.
+Proof. destruct lvl as [|[|[|l]]]; reflexivity. Qed.
+
 Theorem C19_alias_diverges_refuted :
-  forall fuel lvl, 1 <= lvl ->
-    resolve fuel sync_witness PNew (PIn "example.com/x/sync") lvl = None.
+  forall fuel lvl, resolve fuel yaml_witness PNew (PIn "example.com/dep/go-yaml") lvl = None.
 Proof.
-  induction fuel as [|fuel IH]; intros lvl L; [reflexivity|].
-  cbn [resolve]. cbn [ref_path sync_witness rs_new rs_map i_path]. rewrite uniq_std.
-  assert (NE : String.eqb "sync" (unique_name "example.com/x/sync" lvl) = false).
-  { destruct lvl as [|[|[|l]]]; [lia| | |]; vm_compute; reflexivity. }
-  rewrite NE.
-  assert (S1 : search_import [mkImp "example.com/x/sync" "sync" ""] "sync"
-               = Some (mkImp "example.com/x/sync" "sync" "")) by reflexivity.
-  cbn [rs_map sync_witness]. rewrite S1. cbn [i_path ref_eqb].
-  rewrite IH by lia. reflexivity.
+  induction fuel as [|fuel IH]; intros lvl; [reflexivity|].
+  cbn [resolve]. cbn [ref_path yaml_witness rs_new rs_map i_path].
+  rewrite uniq_yaml, String.eqb_refl. apply IH.
 Qed.
 
 Example C19_alias_diverges_at_add_import :
-  add_import (mkRcfg "example.com/x/src" []) [mkImp "example.com/x/sync" "sync" ""] (mkPkg "sync" "sync")
+  add_import (mkRcfg "example.com/x/src" []) [mkImp "example.com/dep/go-yaml" "yaml" ""]
+             (mkPkg "example.com/dep/yaml" "yaml")
   = AddDiverges.
 Proof. vm_compute. reflexivity. Qed.
 
@@ -255,45 +258,27 @@ Proof. intros E. pose proof (C19_run_settled i c args) as S. rewrite E in S. exa
 (* ---- the fuel of resolveImportConflict is not part of the result: once it suffices, more
    of it changes nothing (so a run that ends within [resolve_fuel] is what the unbounded Go
    recursion computes) ---- *)
+Lemma one_step_mono (rec1 rec2 : rstate -> pref -> pref -> nat -> option rstate) lvl o p other y :
+  (forall st a b l x, rec1 st a b l = Some x -> rec2 st a b l = Some x) ->
+  one_step rec1 lvl o p other = Some y -> one_step rec2 lvl o p other = Some y.
+Proof.
+  intros M. destruct o as [st0|]; [|discriminate]. unfold one_step.
+  destruct (search_import (rs_map st0) _) as [c|]; [|exact (fun H => H)].
+  destruct (_ || _); [exact (fun H => H)|]. apply M.
+Qed.
+
 Lemma resolve_mono : forall f st a b lvl x,
   resolve f st a b lvl = Some x -> forall g, f <= g -> resolve g st a b lvl = Some x.
 Proof.
   induction f as [|f IH]; intros st a b lvl x E g LE; [discriminate E|].
   destruct g as [|g]; [lia|]. assert (LE' : f <= g) by lia.
-  cbn [resolve] in *.
+  rewrite resolve_unfold in *.
   destruct (String.eqb (unique_name (ref_path st a) lvl) (unique_name (ref_path st b) lvl)).
   - apply IH; assumption.
-  - (* the two renaming steps, each possibly recursing *)
-    assert (STEP : forall (o : option rstate) (p : pref) y,
-      match o with
-      | None => None
-      | Some st0 =>
-        match search_import (rs_map st0) (unique_name (ref_path st0 p) lvl) with
-        | Some c => if ref_eqb (PIn (i_path c)) p then Some (assign st0 p (unique_name (ref_path st0 p) lvl))
-                    else resolve f st0 p (PIn (i_path c)) (S lvl)
-        | None => Some (assign st0 p (unique_name (ref_path st0 p) lvl))
-        end
-      end = Some y ->
-      match o with
-      | None => None
-      | Some st0 =>
-        match search_import (rs_map st0) (unique_name (ref_path st0 p) lvl) with
-        | Some c => if ref_eqb (PIn (i_path c)) p then Some (assign st0 p (unique_name (ref_path st0 p) lvl))
-                    else resolve g st0 p (PIn (i_path c)) (S lvl)
-        | None => Some (assign st0 p (unique_name (ref_path st0 p) lvl))
-        end
-      end = Some y).
-    { intros [st0|] p y H; [|discriminate H].
-      destruct (search_import (rs_map st0) (unique_name (ref_path st0 p) lvl)) as [c|]; [|exact H].
-      destruct (ref_eqb (PIn (i_path c)) p); [exact H|]. apply IH; assumption. }
-    match type of E with
-    | ?one2 = Some x =>
-      match one2 with
-      | context [match ?inner with None => None | Some _ => _ end] =>
-        destruct inner as [st1|] eqn:E1; [|discriminate E]
-      end
-    end.
-    rewrite (STEP (Some st) a st1 E1). exact (STEP (Some st1) b x E).
+  - assert (M : forall st a b l x, resolve f st a b l = Some x -> resolve g st a b l = Some x).
+    { intros; eapply IH; eassumption. }
+    destruct (one_step (resolve f) lvl (Some st) a b) as [st1|] eqn:E1; [|discriminate E].
+    rewrite (one_step_mono _ _ _ _ _ _ _ M E1). exact (one_step_mono _ _ _ _ _ _ _ M E).
 Qed.
 
 Theorem C19_resolve_fuel_irrelevant st a b lvl x :
